@@ -2,11 +2,11 @@ CONSTANT Allocs = {1, 2, 3}
 CONSTANT MaxCounter = 90
 CONSTANT BatchCap = 10
 CONSTANT MaxSteps = 16
-CONSTANT GrowModes = {TRUE, FALSE}
+CONSTANT GrowModes = {TRUE}
 CONSTANT FloorAhead = 3
 CONSTANT MaxPend = 2
 CONSTANT Fine = TRUE
 CONSTANT Acts = {"Next", "GTLast", "GTBatch", "GTBegin", "GiveBack", "Idle", "Stop"}
-SPECIFICATION Spec
+SPECIFICATION SimSpec
 INVARIANT BehaviourExport
 CHECK_DEADLOCK FALSE
